@@ -357,6 +357,12 @@ def c11_oracle(script, result):
                                 % (before[4], src[4], after[4], op[4], present), i)
                 elif after[4] != before[4]:
                     return ("C11:add_observation:history", "add_observation changed the merge history", i)
+                elif op[2][1] is None and op[2][2] is None and (after[2] != before[2] or after[5] != before[5]):
+                    # neither attributes nor feature: an attribute-only update; the observations of every class and the
+                    # set of classes (get_observations(c) for all c, get_feature_classes()) stay exactly as they were
+                    return ("C11:add_observation:attr-only-creates-class",
+                            "add_observation(class %d, None, None, ..) changed the observations / classes: observations %r -> %r, "
+                            "get_feature_classes %r -> %r" % (op[2][0], before[2], after[2], before[5], after[5]), i)
             regs[r] = after
         return None
     prev = {}
@@ -379,6 +385,13 @@ def c11_oracle(script, result):
                 return ("C11:store-add:notified-on-failure", "failed add on a stored track emitted %d notifications" % st["n"], i)
             if existed and ok and st["n"] != 1:
                 return ("C11:store-add:notifications", "successful add on a stored track emitted %d notifications" % st["n"], i)
+            if ok and op[2][1] is None and op[2][2] is None and op[1] in cur:
+                b_obs, b_fc = (prev[op[1]][2], prev[op[1]][5]) if existed else ((), ())
+                if cur[op[1]][2] != b_obs or cur[op[1]][5] != b_fc:
+                    return ("C11:add_observation:attr-only-creates-class",
+                            "add(%d, class %d, None, None, ..) on a %s track changed the observations / classes: observations %r -> %r, "
+                            "get_feature_classes %r -> %r" % (op[1], op[2][0], "stored" if existed else "freshly created",
+                                                              b_obs, cur[op[1]][2], b_fc, cur[op[1]][5]), i)
         elif k in ("MO", "ME", "MN") and st["r"][0] != 8:
             n_merge = st["n"] - st.get("nb", 0)
             d0 = raw[i].get("direct")
